@@ -81,8 +81,13 @@ CLAIMED['C07'] = dict(
          'or an exception derived from ValidationError (anything else escapes the harness and is reported after replay), the transaction and scripts are unchanged terms, '
          'and the state captured in an EvalScriptError is within the interpreter limits.',
     note='OpenSSL is an oracle stub (exceptions inside OpenSSL outside the claim); termination by construction per explored path; lengths of arbitrary strings are the bound.')
+CLAIMED['C09'] = dict(
+    text=_T + 'bounded histories over a 16-operation alphabet (field assignments, input/output append/replace/remove, witness replacement, immutable snapshot, mutable copy, edit of a copy, '
+         'identifier computation, signature hashing, script verification) with symbolic operation selectors and operands, run against a ghost model: after every step every live object '
+         '(mutable, snapshots, copies) must serialise / identify / compare / hash as its ghost; plus setattr/delattr on every slot of every immutable class raising AttributeError and cached identifiers == recomputed.',
+    note='history length is the bound (quick: all of length 2 and the snapshot/copy-first histories of length 3); SHA-256 uninterpreted, hash() compared through its argument.')
 _UC = 'check not built yet in this round (engine exists; harness pending) - will be claimed or declared not applicable with its real reason'
-for _i in ['C05','C09','C12','C14','C19']:
+for _i in ['C05','C12','C14','C19']:
     NA[_i] = _UC
 NA['C13'] = ('key derivation, signing, verification and point validity are computed by OpenSSL through ctypes: there is no Python or IR to execute '
              'symbolically, and the reference (secp256k1 group law, 256-bit modular inversion) is non-linear 256-bit arithmetic out of reach of z3/cvc5')
